@@ -353,7 +353,7 @@ class Normaliser:
                         if r is not None and r.node is m:
                             cls_nodes[c.qual].body.insert(_after_docstring(cls_nodes[c.qual]), clone(m, k.module.name))
                         continue
-                    if not isinstance(m, ast.FunctionDef) or m.name.startswith('__') and m.name not in ('__init__', '__call__', '__enter__', '__exit__', '__matmul__', '__rmatmul__'):
+                    if not isinstance(m, ast.FunctionDef) or m.name in ('__init_subclass__', '__new__', '__class_getitem__', '__set_name__'):
                         continue
                     r = table.resolve(c, m.name)
                     if r is None or r.node is not m or _uses_super(m):
@@ -903,6 +903,78 @@ def canonical_idioms(tree: ast.AST) -> int:
                 n += _loops_to_comprehensions(block)
                 if not isinstance(node, (ast.ClassDef, ast.Module)):
                     n += _defs_to_lambdas(block)
+                    n += _tables_to_ladders(block, tree)
+    return n
+
+
+def _tables_to_ladders(block: list[ast.stmt], root: ast.AST) -> int:
+    """`t = {k1: v1, ...}; x = t.get(key) [; if x is None: <leave>]`  ->  `if key == k1: x = v1 elif ... else: <leave>`.
+    A lookup in a literal table of constants is the chain of equality tests it abbreviates."""
+    n = 0
+    i = 0
+    while i + 1 < len(block):
+        s0, s1 = block[i], block[i + 1]
+        i += 1
+        tname = None
+        table = None
+        if isinstance(s0, ast.Assign) and len(s0.targets) == 1 and isinstance(s0.targets[0], ast.Name) and isinstance(s0.value, ast.Dict):
+            tname, table = s0.targets[0].id, s0.value
+        elif isinstance(s0, ast.AnnAssign) and isinstance(s0.target, ast.Name) and isinstance(s0.value, ast.Dict):
+            tname, table = s0.target.id, s0.value
+        if table is None or len(table.keys) < 2 or not all(isinstance(k, ast.Constant) for k in table.keys):
+            continue
+        if not (isinstance(s1, ast.Assign) and len(s1.targets) == 1 and isinstance(s1.targets[0], ast.Name)):
+            continue
+        x = s1.targets[0].id
+        v = s1.value
+        key = default = None
+        subscript = False
+        if isinstance(v, ast.Call) and isinstance(v.func, ast.Attribute) and v.func.attr == 'get' and isinstance(v.func.value, ast.Name) and v.func.value.id == tname and 1 <= len(v.args) <= 2 and not v.keywords:
+            key = v.args[0]
+            default = v.args[1] if len(v.args) == 2 else None
+        elif isinstance(v, ast.Subscript) and isinstance(v.value, ast.Name) and v.value.id == tname:
+            key, subscript = v.slice, True
+        if key is None:
+            continue
+        # the key is evaluated once per test: it must be free of effects (names, attributes, len(...) of such)
+        if any(isinstance(c, ast.Call) and not (isinstance(c.func, ast.Name) and c.func.id == 'len') for c in ast.walk(key)):
+            continue
+        # the table is used nowhere else
+        uses = [m for m in ast.walk(root) if isinstance(m, ast.Name) and m.id == tname]
+        if len(uses) != 2:
+            continue
+        leave = None
+        take = 2
+        s2 = block[i + 1] if i + 1 < len(block) else None
+        if (not subscript and default is None and isinstance(s2, ast.If) and not s2.orelse and isinstance(s2.test, ast.Compare) and len(s2.test.ops) == 1 and isinstance(s2.test.ops[0], ast.Is)
+                and isinstance(s2.test.left, ast.Name) and s2.test.left.id == x and isinstance(s2.test.comparators[0], ast.Constant) and s2.test.comparators[0].value is None
+                and s2.body and isinstance(s2.body[-1], (ast.Raise, ast.Return))):
+            leave = s2.body
+            take = 3
+        omod = getattr(s1, '_omod', '')
+
+        def mk(node):
+            for y in ast.walk(node):
+                if not hasattr(y, 'lineno') and isinstance(y, (ast.expr, ast.stmt)):
+                    y.lineno, y.col_offset = s1.lineno, s1.col_offset
+                    y.end_lineno, y.end_col_offset = getattr(s1, 'end_lineno', s1.lineno), 0
+                if not getattr(y, '_omod', None):
+                    y._omod = omod  # type: ignore[attr-defined]
+            return node
+
+        if leave is not None:
+            tail: list[ast.stmt] = leave
+        elif subscript:
+            tail = [mk(ast.Raise(exc=ast.Call(func=ast.Name(id='KeyError', ctx=ast.Load()), args=[clone(key, omod)], keywords=[]), cause=None))]
+        else:
+            tail = [mk(ast.Assign(targets=[ast.Name(id=x, ctx=ast.Store())], value=clone(default, omod) if default is not None else ast.Constant(value=None)))]
+        ladder: list[ast.stmt] = tail
+        for k, val in reversed(list(zip(table.keys, table.values))):
+            test = ast.Compare(left=clone(key, omod), ops=[ast.Eq()], comparators=[k])
+            body = [ast.Assign(targets=[ast.Name(id=x, ctx=ast.Store())], value=val)]
+            ladder = [mk(ast.If(test=test, body=body, orelse=ladder))]
+        block[i - 1:i - 1 + take] = ladder
+        n += 1
     return n
 
 
